@@ -48,6 +48,13 @@ def hot_positions(hot, rng, per_call):
         rng.shuffle(rest)
         for p in firsts + rest[:max(0, per_call - len(firsts))]:
             pos.append("%s:%d" % (p, rng.choice([1, 1, 0])))
+        if call.endswith("compaction"):
+            # the end of every output table of a compaction (F25, F26: a failed Close of a compaction output)
+            for p in [q for q in lst if q.startswith("close:")][:4]:
+                for mode in (1, 3):
+                    f = "%s:%d" % (p, mode)
+                    if f not in pos:
+                        pos.append(f)
     return pos
 
 
